@@ -188,15 +188,40 @@ type opResult struct {
 	beforeA   map[int][]byte
 	beforeB   map[int][]byte
 	panicked  string
+	stuck     bool     // the operation did not return within hardLimit
 	hung      []string // cput: "<side> <put index>" of the Puts that were made to wait for cancellation
 	fromClose bool     // the error came out of io.ReadCloser.Close (background task error, not prefixable)
 }
 
 func atoi(s string) int { v, _ := strconv.Atoi(s); return v }
 
-// run executes one operation line on the real code.
-func (s *sutA) run(w []string) (res opResult) {
-	ctx := context.Background()
+// opDeadline bounds every operation of the composite. Nothing in the unchanged
+// code waits on the context when operations are issued one at a time (the
+// recording replicas ignore it, semaphores and queues are uncontended), so an
+// operation that ends with DEADLINE_EXCEEDED was blocked on something that is
+// never released. hardLimit is the safety net for an operation that does not
+// even honour its context: the case is abandoned.
+const (
+	opDeadline = 2 * time.Second
+	hardLimit  = 20 * time.Second
+)
+
+// run executes one operation line on the real code under a watchdog.
+func (s *sutA) run(w []string) opResult {
+	done := make(chan opResult, 1)
+	go func() { done <- s.run1(w) }()
+	select {
+	case res := <-done:
+		return res
+	case <-time.After(hardLimit):
+		return opResult{reply: "no-return", stuck: true, beforeA: map[int][]byte{}, beforeB: map[int][]byte{}}
+	}
+}
+
+func (s *sutA) run1(w []string) (res opResult) {
+	ctx0 := context.Background()
+	ctx, cancelDeadline := context.WithTimeout(ctx0, opDeadline)
+	defer cancelDeadline()
 	res.beforeA, res.beforeB = copyStore(s.A.store), copyStore(s.B.store)
 	la, lb := len(s.A.log), len(s.B.log)
 	defer func() {
@@ -246,7 +271,7 @@ func (s *sutA) run(w []string) (res opResult) {
 		// context) while the named replicas are still writing; a replica not
 		// named has finished by then.
 		k := atoi(w[1])
-		cctx, cancel := context.WithCancel(ctx)
+		cctx, cancel := context.WithCancel(ctx0) // no deadline: the cancellation below is the event
 		for _, side := range []string{"A", "B"} {
 			if strings.Contains(w[3], side) {
 				rb := s.side(side)
